@@ -54,12 +54,61 @@ fn wire_carrier_case(g: &mut Gen, ctx: &mut Ctx) -> CaseResult {
     expect_eq(&format!("whole {}: verify_tag", kind.name()), &seen.1, &want)
 }
 
+/// Whatever the decoder accepts (here: messages with one planted fault, most of which it must
+/// reject — that is C08/C09's business), the to-be-MACed bytes carry the *received* protected
+/// bytes, payload and context: the slots are read off the wire with the harness' own reader.
+fn accepted_any_case(g: &mut Gen, ctx: &mut Ctx) -> CaseResult {
+    let kind = *g.pick(&[Kind::Mac, Kind::Mac0]);
+    let item = gen_msg(g, kind, &mut Faults::one(), 1);
+    let o = if g.bool() { StyleOpts::NONE } else { StyleOpts::ALL };
+    let (bytes, _) = styled(&item, g, o);
+    let slots = match wire_slots(&bytes) {
+        Some(s) => s,
+        None => return Ok(()),
+    };
+    let (w, payload, tag) = match (slot_bytes(&slots, 0), slot_bytes(&slots, 2), slot_bytes(&slots, 3)) {
+        (Some(w), Some(p), Some(t)) => (w, p, t),
+        _ => return Ok(()),
+    };
+    let aad = g.small_bytes();
+    let mut seen = None;
+    let f = |t: &[u8], d: &[u8]| -> Result<(), u8> {
+        seen = Some((t.to_vec(), d.to_vec()));
+        Ok(())
+    };
+    let cname = if kind == Kind::Mac {
+        match CoseMac::from_slice(&bytes) {
+            Ok(v) => {
+                let _ = v.verify_tag(&aad, f);
+            }
+            Err(_) => return Ok(()),
+        }
+        "MAC"
+    } else {
+        match CoseMac0::from_slice(&bytes) {
+            Ok(v) => {
+                let _ = v.verify_tag(&aad, f);
+            }
+            Err(_) => return Ok(()),
+        }
+        "MAC0"
+    };
+    ctx.classf(format!("accepted-any:{}", kind.name()));
+    ctx.nontrivial(hash_bytes(&[&b"a"[..], &bytes, &aad].concat()));
+    let (t, d) = seen.ok_or("verify_tag did not call the verifier")?;
+    ensure!(t == tag, "accepted {}: verify_tag handed over a tag other than the received one", kind.name());
+    expect_eq(&format!("accepted {} ({}): verify_tag", kind.name(), hex_trunc(&bytes, 60)), &d, &ref_mac_structure(cname, &w, &aad, &payload))
+}
+
 fn case(g: &mut Gen, ctx: &mut Ctx) -> CaseResult {
     if g.ratio(1, 5) {
         return wire_carrier_case(g, ctx);
     }
+    if g.ratio(1, 5) {
+        return accepted_any_case(g, ctx);
+    }
     let prot = gen_prot(g, ctx)?;
-    let aad = gen_class_bytes(g);
+    let aad = gen_aad(g, &prot.p);
     let payload = gen_class_bytes(g);
     let mac0 = g.bool();
     let has_payload = !g.ratio(1, 5);
